@@ -44,6 +44,9 @@ type Man struct {
 	ConfigMT     string            `json:"config_mt,omitempty"`
 	Ann          map[string]string `json:"ann,omitempty"`
 	Salt         int               `json:"salt"`
+	// SubjVar varies the subject descriptor written into the manifest (same digest):
+	// 0 accurate, 1 size omitted (0), 2 other media type, 3 both
+	SubjVar int `json:"subj_var,omitempty"`
 }
 
 type Op struct {
@@ -137,6 +140,12 @@ func subjectManifest(s int) built {
 }
 
 func buildMan(m Man, subj ocispec.Descriptor) built {
+	if m.SubjVar&1 != 0 {
+		subj.Size = 0
+	}
+	if m.SubjVar&2 != 0 {
+		subj.MediaType = "application/vnd.docker.distribution.manifest.v2+json"
+	}
 	var c []byte
 	var mt string
 	filler := ocispec.Descriptor{MediaType: "application/vnd.oci.empty.v1+json", Digest: emptyJSONDigest, Size: int64(2 + m.Salt)}
@@ -194,6 +203,9 @@ func genE2E(r *common.Rand, thorough bool) *E2ECase {
 			m.Ann = map[string]string{"k": fmt.Sprint(r.Intn(3))}
 		case 2:
 			m.Ann = map[string]string{"org.example.a": "x", "k": fmt.Sprint(r.Intn(3))}
+		}
+		if r.Chance(1, 2) {
+			m.SubjVar = 1 + r.Intn(3)
 		}
 		c.Mans = append(c.Mans, m)
 		return len(c.Mans) - 1
